@@ -74,7 +74,7 @@ def kinds(s):
     return KRE.findall(s)
 
 
-def canon(code, model, empty=False):
+def canon(code, model, empty=False, lenient=False):
     """code schema rewritten to the model's where they differ only by the tolerated promotion of int/bool kinds (either
     direction: the declaration may have been inferred on a stand-in with missing values) or, for an empty object, by
     kinds at all (value dependent inference).  -> (schema, promoted?)"""
@@ -85,12 +85,34 @@ def canon(code, model, empty=False):
     for c, m in zip(kinds(code), kinds(model)):
         if c == m or (m, c) in PROMO or (c, m) in PROMO or empty:
             continue
+        if lenient and c in "fo" and m in "ibf":
+            continue  # a promotion that went through a later aggregation (sum of a promoted column, min over mixed columns)
         return code, False
     return model, True
 
 
 class Unsupported(Exception):
     pass
+
+
+class OutsideModel(Exception):
+    """an inner node whose `_meta` has labels the model cannot express (non-string or duplicate labels)"""
+
+
+def inside_model(x):
+    try:
+        if isinstance(x, pd.DataFrame):
+            [lab(c) for c in x.columns]
+            [olab(n) for n in x.index.names]
+            return x.columns.is_unique
+        if isinstance(x, pd.Series):
+            olab(x.name)
+            [olab(n) for n in x.index.names]
+        if isinstance(x, pd.Index):
+            [olab(n) for n in x.names]
+    except ValueError:
+        return False
+    return True
 
 
 def strs(xs):
@@ -138,57 +160,87 @@ def _same_nlevels(frames):
     return len({f._meta.index.nlevels for f in frames if hasattr(f._meta, "index")}) <= 1
 
 
-def tokens(e, rt=None):
+OPAQUE = "src|!"  # marks an opaque source that stands for an unmodelled operator (not a leaf of the real expression)
+
+
+def _stack_kinds_ok(frames):
+    """row-wise concat: pandas' block-wise result for bool columns stacked with numeric ones depends on the order of the
+    inputs (int+bool -> int, float+bool -> float, bool+float -> object): outside the model; so is the name pandas keeps
+    for a leading named RangeIndex stand-in when the index names differ"""
+    metas = [f._meta for f in frames]
+    if all(isinstance(m, pd.DataFrame) for m in metas):
+        seen = {}
+        for m in metas:
+            for c, t in zip(m.columns, m.dtypes):
+                seen.setdefault(c, set()).add(kch(t))
+        if any("b" in ks and len(ks) > 1 for ks in seen.values()):
+            return False
+    elif all(isinstance(m, pd.Series) for m in metas):
+        ks = {kch(m.dtype) for m in metas}
+        if "b" in ks and len(ks) > 1:
+            return False
+    names = [tuple(m.index.names) for m in metas if hasattr(m, "index")]
+    if len(set(names)) > 1 and any(isinstance(m.index, pd.RangeIndex) and m.index.name is not None for m in metas if hasattr(m, "index")):
+        return False
+    return True
+
+
+def tokens(e, rt=None, root=True):
     """postfix token list of expression `e`; nodes of classes outside the model become opaque sources (their `_meta`)"""
     K = _classes()
     E, R, G, M, C, S = K["E"], K["R"], K["G"], K["M"], K["C"], K["S"]
     rt = rt or {}
     sfx = rt.get(e._name, "")
     t = type(e)
+    if not root and not inside_model(e._meta):
+        raise OutsideModel(type(e).__name__)
     try:
         if t is E.Projection:
             cols = e.operand("columns")
             if isinstance(cols, list):
-                return tokens(e.frame, rt) + ["getcols|" + strs(cols) + sfx]
+                return tokens(e.frame, rt, False) + ["getcols|" + strs(cols) + sfx]
             if isinstance(cols, str):
-                return tokens(e.frame, rt) + ["getcol|" + lab(cols) + sfx]
+                return tokens(e.frame, rt, False) + ["getcol|" + lab(cols) + sfx]
         elif t is E.RenameFrame and isinstance(e.operand("columns"), dict):
             m = e.operand("columns")
-            return tokens(e.frame, rt) + ["rename|" + (",".join(f"{lab(a)}>{lab(b)}" for a, b in m.items()) or "-")]
+            return tokens(e.frame, rt, False) + ["rename|" + (",".join(f"{lab(a)}>{lab(b)}" for a, b in m.items()) or "-")]
         elif t is E.RenameSeries and isinstance(e.operand("index"), str):
-            return tokens(e.frame, rt) + ["renames|" + lab(e.operand("index"))]
+            return tokens(e.frame, rt, False) + ["renames|" + lab(e.operand("index"))]
         elif t is E.AddPrefix:
-            return tokens(e.frame, rt) + ["prefix|" + lab(e.prefix)]
+            return tokens(e.frame, rt, False) + ["prefix|" + lab(e.prefix)]
         elif t is E.AddSuffix:
-            return tokens(e.frame, rt) + ["suffix|" + lab(e.suffix)]
+            return tokens(e.frame, rt, False) + ["suffix|" + lab(e.suffix)]
         elif t is E.Drop and e.operand("errors") == "raise":
-            return tokens(e.frame, rt) + ["drop|" + strs(aslist(e.operand("columns")))]
+            return tokens(e.frame, rt, False) + ["drop|" + strs(aslist(e.operand("columns")))]
         elif t in K["KEEP"]:
-            return tokens(e.frame, rt) + ["keep"]
+            return tokens(e.frame, rt, False) + ["keep"]
         elif t is E.ResetIndex and e.operand("name") is E.no_default:
-            return tokens(e.frame, rt) + ["reset|%d" % bool(e.drop)]
+            return tokens(e.frame, rt, False) + ["reset|%d" % bool(e.drop)]
         elif t is S.SetIndex and isinstance(e._other, str) and not e.operand("append"):
-            return tokens(e.frame, rt) + ["setindex|%s|%d" % (lab(e._other), bool(e.drop)) + sfx]
+            return tokens(e.frame, rt, False) + ["setindex|%s|%d" % (lab(e._other), bool(e.drop)) + sfx]
         elif t is E.Index:
-            return tokens(e.frame, rt) + ["index"]
+            return tokens(e.frame, rt, False) + ["index"]
         elif t is E.ToSeriesIndex and e.operand("name") is E.no_default and e.operand("index") is None:
-            return tokens(e.frame, rt) + ["idx2s"]
+            return tokens(e.frame, rt, False) + ["idx2s"]
         elif t is E.ToFrameIndex and e.operand("index") is True:
             n = e.operand("name")
-            return tokens(e.frame, rt) + ["idx2f|" + ("~" if n is E.no_default else lab(n))]
+            return tokens(e.frame, rt, False) + ["idx2f|" + ("~" if n is E.no_default else lab(n))]
         elif t is E.ToFrame:
             n = e.operand("name")
-            return tokens(e.frame, rt) + ["toframe|" + ("~" if n is E.no_default else lab(n))]
+            return tokens(e.frame, rt, False) + ["toframe|" + ("~" if n is E.no_default else lab(n))]
         elif t is R.ValueCounts:
-            return tokens(e.frame, rt) + ["vc|%d" % bool(e.normalize) + sfx]
+            return tokens(e.frame, rt, False) + ["vc|%d" % bool(e.normalize) + sfx]
         elif t in K["RED"]:
             if "axis" in e._parameters and e.operand("axis") not in (0,):
                 raise Unsupported
             if "numeric_only" in e._parameters and e.operand("numeric_only"):
                 raise Unsupported
-            return tokens(e.frame, rt) + ["reduce|" + K["RED"][t] + sfx]
+            fm = e.frame._meta
+            if t in (R.Any, R.All) and "o" in ([kch(fm.dtype)] if isinstance(fm, pd.Series) else [kch(x) for x in getattr(fm, "dtypes", [])]):
+                raise Unsupported  # str columns refuse any/all, genuine object columns do not: one kind in the model
+            return tokens(e.frame, rt, False) + ["reduce|" + K["RED"][t] + sfx]
         elif t in (R.Len, R.Size):
-            return tokens(e.frame, rt) + ["len"]
+            return tokens(e.frame, rt, False) + ["len"]
         elif t in K["GB"] and all(isinstance(b, str) for b in e.by):
             if (e.operand("chunk_kwargs") or {}).get("numeric_only") or e.operand("split_out") not in (None, 1):
                 raise Unsupported
@@ -201,11 +253,11 @@ def tokens(e, rt=None):
                 s = "m:" + strs(sl)
             else:
                 raise Unsupported
-            return tokens(e.frame, rt) + ["gb|%s|%s|%s" % (strs(e.by), s, K["GB"][t]) + sfx]
+            return tokens(e.frame, rt, False) + ["gb|%s|%s|%s" % (strs(e.by), s, K["GB"][t]) + sfx]
         elif t is E.Assign:
-            out = tokens(e.frame, rt)
+            out = tokens(e.frame, rt, False)
             for k, v in zip(e.keys, e.vals):
-                out = out + (tokens(v, rt) if isinstance(v, E.Expr) else ["src|" + render_sch(v)]) + ["assign|" + lab(k)]
+                out = out + (tokens(v, rt, False) if isinstance(v, E.Expr) else ["src|" + render_sch(v)]) + ["assign|" + lab(k)]
             return out
         elif t is M.Merge and not e.left_index and not e.right_index and not e.indicator:
             lo, ro = aslist(e.left_on), aslist(e.right_on)
@@ -214,23 +266,36 @@ def tokens(e, rt=None):
             if len(lo) != len(ro) or any(a not in lm.columns or b not in rm.columns or kch(lm[a].dtype) != kch(rm[b].dtype)
                                          for a, b in zip(lo, ro)):
                 raise Unsupported  # keys of different kinds: pandas coerces them (outside the model)
-            return tokens(e.left, rt) + tokens(e.right, rt) + [
+            return tokens(e.left, rt, False) + tokens(e.right, rt, False) + [
                 "merge|%s|%s|%s|%s|%s" % (e.how, strs(lo), strs(ro), ls or "~", rs or "~") + sfx]
         elif t is C.Concat and e.axis in (0, 1) and e.join in ("outer", "inner"):
             fr = e._frames
-            if (e.axis == 1 and not _same_index(fr)) or not _same_nlevels(fr):
+            if (e.axis == 1 and not _same_index(fr)) or not _same_nlevels(fr) or (e.axis == 0 and not _stack_kinds_ok(fr)):
                 raise Unsupported
             out = []
             for f in fr:
-                out += tokens(f, rt)
+                out += tokens(f, rt, False)
             return out + ["concat|%d|%d|%d" % (e.axis, e.join == "inner", len(fr)) + sfx]
     except (Unsupported, ValueError):
         pass
-    return ["src|" + render_sch(e._meta)]
+    leaf = not e.dependencies()
+    return [("src|" if leaf else OPAQUE) + render_sch(e._meta)]
 
 
 def to_tree(e, rt=None):
-    return "/".join(tokens(e, rt))
+    """model tree of `e` ('' when an inner node is outside the label model)"""
+    try:
+        return "/".join(tokens(e, rt)).replace(OPAQUE, "src|")
+    except OutsideModel:
+        return ""
+
+
+def has_opaque_operator(e):
+    """does the tree of `e` contain an opaque source that stands for an unmodelled operator?"""
+    try:
+        return any(t.startswith(OPAQUE) for t in tokens(e))
+    except OutsideModel:
+        return True
 
 
 def op_class(tree):
